@@ -89,6 +89,11 @@ func gen(g *hx.Gen) {
 	}
 	all := gx.Reps
 
+	// corpus: the known finding C09:chromatic-index-byte-wrap (KNOWN_FINDINGS.txt).  ChromaticIndex
+	// alone on the star K_{1,256} and on a tree with a vertex of degree 257 (see big.go).
+	g.Emit(gx.CaseLine(gx.Empty(1), 0, []string{"B:256.0"}))
+	g.Emit(gx.CaseLine(gx.Empty(1), 0, []string{"B:257.12"}))
+
 	// n = 0, 1, 2: every representation, every relabelling
 	for n := 0; n <= 2; n++ {
 		gx.AllLabelled(n, func(gr *gx.G) {
